@@ -69,7 +69,9 @@ func c18History(r *rand.Rand, n int) Case {
 				}
 				pol := r.Intn(4)
 				var opts []analytics.AddLayerOpt
-				if len(tags) > 0 || r.Intn(2) == 0 {
+				if len(tags) > 1 && r.Intn(3) == 0 { // the same tags given by two WithTags options
+					opts = append(opts, analytics.WithTags(tags[:1]...), analytics.WithTags(tags[1:]...))
+				} else if len(tags) > 0 || r.Intn(2) == 0 {
 					opts = append(opts, analytics.WithTags(tags...))
 				}
 				polS := "PNone"
@@ -81,6 +83,8 @@ func c18History(r *rand.Rand, n int) Case {
 					opts = append(opts, analytics.MustCreate())
 					polS = "PMustCreate"
 				}
+				// options are a set: any order of the same options must behave the same
+				r.Shuffle(len(opts), func(a, b int) { opts[a], opts[b] = opts[b], opts[a] })
 				unnamed := r.Intn(6) == 0
 				via := r.Intn(3)
 				var err error
@@ -135,7 +139,7 @@ func c18History(r *rand.Rand, n int) Case {
 						ts = append(ts, t)
 					}
 				}
-				if len(ts) == 0 {
+				if len(ts) == 0 && r.Intn(3) != 0 { // an empty request is legal too: it selects nothing
 					ts = []string{c18Tags[r.Intn(3)]}
 				}
 				ov := ds.TaggedSubset(ts...)
@@ -214,7 +218,7 @@ func c18History(r *rand.Rand, n int) Case {
 func init() {
 	register(&Prop{
 		ID:   "C18",
-		Rule: "histories of 1-25 steps over 3 names (so re-adds occur) and 3 tags: AddDocument / AddDocumentFromReader (YAML) / AddUnnamedDocument with options in {none, WithTags, MergeTags, MustCreate}, interleaved with TaggedSubset(ts) (incl. '*' and an unknown tag), AsOne() (must equal TaggedSubset('*')), NamedDocument(n) (incl. unknown names). After every step the return status / LayerNames + every layer's content / served document vs the Coq model and vs a Go-side plain reference; no query may panic. Non-trivial: history re-adds a name successfully. Distinct by Gallina term.",
+		Rule: "histories of 1-25 steps over 3 names (so re-adds occur) and 3 tags: AddDocument / AddDocumentFromReader (YAML) / AddUnnamedDocument with options in {none, WithTags, MergeTags, MustCreate}, given in random order (the same tags also split over two WithTags), interleaved with TaggedSubset(ts) (incl. '*', an unknown tag and the empty request), AsOne() (must equal TaggedSubset('*')), NamedDocument(n) (incl. unknown names). After every step the return status / LayerNames + every layer's content / served document vs the Coq model and vs a Go-side plain reference; no query may panic. Non-trivial: history re-adds a name successfully. Distinct by Gallina term.",
 		Gen: func(r *rand.Rand, tier string, idx int) Case {
 			return c18History(r, 1+r.Intn(25))
 		},
